@@ -77,6 +77,32 @@ def check_comment(case):
     check_render(emb.lines[:-1], ra, 'embedded rendering')
 
 
+# text blocks that carry a header, handed to Comment directly or nested in a list
+headed_block = st.fixed_dictionaries({
+    'content': hostile_content,
+    'header': st.lists(hostile_text.filter(lambda t: t.strip() != ''), min_size=1, max_size=2),
+    'wrap': st.sampled_from(['direct', 'list', 'nested'])})
+
+
+def check_headed(case):
+    """Whatever becomes of the header of a nested block, every rendered line is a comment line that
+    carries one of the comment's own lines."""
+    from dznpy.cpp_gen import Comment
+    from dznpy.text_gen import TextBlock
+    tb = TextBlock(c17.real(case['content']), header=list(case['header']))
+    arg = tb if case['wrap'] == 'direct' else ([tb, 'tail'] if case['wrap'] == 'list' else
+                                               TextBlock(tb))
+    c = Comment(arg)
+    before = list(c.lines)
+    out = rendered_lines(str(c))
+    check_render(out, before, f'Comment({case["wrap"]} headed TextBlock)')
+    if c.lines != before or str(c) != ''.join(o + '\n' for o in out):
+        raise Fail('rendering a comment built from a headed block is not repeatable', 'headed-repeat')
+    emb = TextBlock([Comment(arg), 'int code;'])
+    if emb.lines[-1] != 'int code;' or not all(l.startswith('//') for l in emb.lines[:-1]):
+        raise Fail(f'embedded comment built from a headed block: {emb.lines!r}', 'headed-embedded')
+
+
 def nontrivial_text(v):
     phys = c17.ref_lines(v)
     leaves = [x for x in c17.leaves(v) if isinstance(x, str)]
@@ -89,6 +115,9 @@ def run(ctx):
                                                  'how': st.sampled_from(['append', 'iadd'])}),
                check_comment, n, nontrivial=lambda c: nontrivial_text(c['a']),
                labels=lambda c: c17.labels_content(c['a']))
+    ctx.clause('headed_block', headed_block, check_headed, max(1, n // 4),
+               nontrivial=lambda c: len(c17.ref_lines(c['content'])) >= 1,
+               labels=lambda c: ['headed-' + c['wrap']])
     try:
         from vf.props import c19_build  # part (b), needs the shell-model generator
     except ImportError:
